@@ -56,9 +56,7 @@ def run_history(world_cls, seed, hist, params=None):
             import traceback
 
             tb = traceback.extract_tb(exc.__traceback__)
-            lib = [fr for fr in tb if "/grid/" in fr.filename and "/vf/" not in fr.filename]
-            if not lib:
-                raise
+            lib = [fr for fr in tb if "/grid/" in fr.filename and "/vf/" not in fr.filename] or list(tb)
             where = f"{lib[-1].filename.split('/')[-1]}:{lib[-1].lineno}:{lib[-1].name}"
             w.violations.append((f"event-raised:{ev[0]}:{type(exc).__name__}:{where}",
                                  f"event {tuple(ev)} raised {type(exc).__name__}: {exc} (at {where})", {}))
